@@ -40,6 +40,19 @@ def directed(tier):
                         "req": [{"acse": t, "dimse": t, "network": 3 * t, "max_pdu": 16382, "start_delay": 0.0,
                                  "ops": [{"op": comp, "gap": 0.0, "gap2": gap2}], "final": "leave", "timeout_response": "A-ABORT"}],
                     })
+    # the connection stalls (both directions black-holed, TCP stays open) while the requestor writes a C-STORE
+    # request larger than the connection's buffering: send() blocks until the network timeout
+    for cap in (512, 4096):
+        for at in (300, 700, 2500):
+            for size in (3000, 20000):
+                out.append({
+                    "sched": {"switch_pct": 30}, "net": {"seg": "whole", "pipe_capacity": cap}, "config": "faulty",
+                    "faults": [{"conn": 0, "dir": "c2s", "kind": "stall", "at": at}], "acc_ops": [],
+                    "acc": {"acse": t, "dimse": t, "network": 3 * t, "max_pdu": 16382, "echo_act": "none", "echo_sleep": 0.001,
+                            "find_k": 1, "find_sleep": 0.0, "reject": None, "timeout_response": "A-ABORT"},
+                    "req": [{"acse": t, "dimse": t, "network": 2 * t, "max_pdu": 16382, "start_delay": 0.0,
+                             "ops": [{"op": "store", "size": size}], "final": "release", "timeout_response": "A-ABORT"}],
+                })
     return out
 
 
